@@ -129,7 +129,11 @@ def sharded_pipelines_as_iterator(
               f'unexpected accumulator type {type(state)} during aggregation.',
           )
 
-      merged_state = agg_fn.merge_states(iterate_agg_state())
+      # A failed or abandoned shard delivers no state: report it rather than
+      # publishing the aggregate of the remaining shards.
+      merged_state = agg_fn.merge_states(
+          iterate_agg_state(), strict_states_cnt=num_shards
+      )
       # At most only one item in the output_q.
       result_queue.put(
           transform_lib.AggregateResult(
